@@ -20,6 +20,9 @@ def run(rep):
     rep.guard(l6, rep, w)
     rep.guard(l7, rep, w)
     rep.guard(l8, rep, w)
+    rep.guard(l9, rep, w)
+    import c04
+    rep.guard(c04.b5, rep, w)     # the frame limit is tested before the frame is pushed: the overflow report resolves the caller's ip in the caller's chunk
     import c15
     rep.guard(c15.n1, rep, w)     # a flag left over from an earlier failed run turns a later, unrelated try statement into a phantom error report
 
@@ -490,3 +493,32 @@ def l8(rep, w):
     import c13
     r = rep.rule('L8', 'an out-of-range index is an IndexError whatever its magnitude: +-inf and huge integral numbers are integers (one shared classifier)', floor=1)
     c13.validate_integer_shape(r, w, 'C17')
+
+
+def l9(rep, w):
+    """an uncaught error is reported under the class of the thrown instance itself -- the class a handler would have seen with type(e) --
+    not under an ancestor: the class whose name goes into the report is read from the instance's own `class` field, with no step up the
+    superclass chain and no detour through a classification helper"""
+    r = rep.rule('L9', 'the class named in the report of an uncaught error is the thrown instance\'s own class', floor=1)
+    f = w.require_fn(VM + 'new_error_from_value', 'C17')
+    org = origins(f)
+    n = 0
+    for bi in sorted(f.normal_blocks()):
+        for s_ in f.blocks[bi]['s']:
+            rr = s_.get('r', {})
+            for pl in (rr.get('p'), op_place(rr.get('o') or {})):
+                if not isinstance(pl, dict):
+                    continue
+                ps = pl.get('p', [])
+                idx = [i for i, e in enumerate(ps) if isinstance(e, dict) and e.get('n') == 'name']
+                if not idx or c01.base_type_before_last(f, {'l': pl['l'], 'p': ps[:idx[0] + 1]}) != 'yarel::object::ObjClass':
+                    continue
+                n += 1
+                paths = org.get(pl['l'], ())
+                inner = [e.get('n') for e in ps[:idx[0]] if isinstance(e, dict) and 'n' in e]
+                bad = [q for q in paths if q[0][0] != 'arg' or 'superclass' in q[1:] or 'class' not in q[1:]]
+                r.check(bool(paths) and not bad and 'superclass' not in inner, 'new_error_from_value: the reported class name is instance.class.name',
+                        'the class whose name is reported comes from %s: an instance of a user-defined subclass of a built-in error is reported under another class than the one '
+                        'it was thrown as' % ([' '.join(str(x) for x in q[:1]) + ' ' + ' '.join(t for t in q[1:] if not t.startswith('@') and t != '*') for q in bad][:2] or inner), f.loc(s_.get('sp')))
+    if n < 1:
+        raise Broken('C17', 'anchor', 'new_error_from_value: no read of a class name found')
